@@ -335,6 +335,7 @@ def main(tier, seed):
 
     def real_part():
         real["res"] = run_shards("checks.c05_real", "shard_real", [{"tier": tier, "seed": seed, "pairs": 6}], timeout=3000, workers=1)
+        real["res"] += run_shards("checks.c20_real", "shard_real", [{"tier": tier, "seed": seed, "pairs": 4, "parts": ["partials"]}], timeout=3000, workers=1)
 
     th = threading.Thread(target=real_part)
     th.start()
@@ -359,7 +360,7 @@ def main(tier, seed):
     run.need("0" in run.sets.get("statp_sizes", set()), "no zero-change partial update sent")
     run.need(run.counters.get("statp_with_restoring_record", 0) > 20, "no partial update with a record restoring the previous value")
     return run.finish(
-        rule="histories of partial updates (0..12 changes of unique 2-byte values, repeated positions, the simulator's own 1-byte do_set form), silent spa-side changes and refreshes over the same positions; serial histories are compared after every event, burst histories (updates overlapping a refresh in time) after quiescence, one long-lived connection with 450+ acknowledged updates (the sequence counter wraps twice), against a reference that applies every delivered update once in processing order; one evaluation = one comparison point; distinct = distinct history prefixes; plus the real world: 6 client/simulator pairs in one process over UDP on 127.0.0.1, serial and burst histories of partial updates (0..250 records, verbatim repeats, the 1-byte form), block equality at quiescence and one well-formed STATQ per STATP at the spa's OS socket",
+        rule="histories of partial updates (0..12 changes of unique 2-byte values, repeated positions, the simulator's own 1-byte do_set form), silent spa-side changes and refreshes over the same positions; serial histories are compared after every event, burst histories (updates overlapping a refresh in time) after quiescence, one long-lived connection with 450+ acknowledged updates (the sequence counter wraps twice), against a reference that applies every delivered update once in processing order; one evaluation = one comparison point; distinct = distinct history prefixes; plus the real world: 6 client/simulator pairs in one process over UDP on 127.0.0.1, serial and burst histories of partial updates (0..250 records, verbatim repeats, the 1-byte form), block equality at quiescence and one well-formed STATQ per STATP at the spa's OS socket; the same for 4 blocking-client pairs (real threads, real sockets)",
         assumptions=["fault-free network (loss is C01's subject)", "a refresh carries the spa content sampled when the simulator dispatched the STATU", "positions inside the block (a 2-byte change at byte 1023 would grow the block - outside the statement as read)"],
     )
 
